@@ -208,6 +208,8 @@ class SymRandom:
         a = np.empty(tuple(shape), dtype=object)
         for idx in np.ndindex(*a.shape):
             a[idx] = self._one()
+        if self.E.mode == 'conc':
+            a = a.astype(float)
         return a
 
     def random_sample(self, size=None):
